@@ -179,21 +179,29 @@ impl AbstractInstructionSet {
                         },
                         VirtualOp::MOVE(dest, src) => {
                             let ver = get_def_version(&latest_version, src);
-                            if let Some(RegContents::BaseOffset(src, 0)) = reg_contents.get(src) {
-                                if dest == &src.reg && src.ver == ver {
+                            match reg_contents.get(src) {
+                                // `src` is a copy of what `dest` still holds: the move is redundant.
+                                Some(RegContents::BaseOffset(base_reg, 0))
+                                    if dest == &base_reg.reg
+                                        && get_def_version(&latest_version, &base_reg.reg)
+                                            == base_reg.ver =>
+                                {
                                     retain = false;
                                 }
-                            } else {
-                                reg_contents.insert(
-                                    dest.clone(),
-                                    RegContents::BaseOffset(
-                                        VRegDef {
-                                            reg: src.clone(),
-                                            ver,
-                                        },
-                                        0,
-                                    ),
-                                );
+                                // Otherwise `dest` is redefined as a copy of `src`.
+                                _ => {
+                                    reg_contents.insert(
+                                        dest.clone(),
+                                        RegContents::BaseOffset(
+                                            VRegDef {
+                                                reg: src.clone(),
+                                                ver,
+                                            },
+                                            0,
+                                        ),
+                                    );
+                                    record_new_def(&mut latest_version, dest);
+                                }
                             }
                         }
                         _ => {
